@@ -87,7 +87,7 @@ pub fn property(id: &str) -> Option<PropertyRun> {
         "C12" => PropertyRun {
             id: id.into(),
             parts: vec![Box::new(Campaign(problems::C12)), Box::new(Campaign(problems::Preamble))],
-            assumptions: vec!["quantifiers over $int, general and symbol are sampled on windows, as the property states".into(), "a constant x__s is read as the symbol x when x is a 0-ary predicate of the problem (anthem's documented renaming)".into()],
+            assumptions: vec!["quantifiers over $int, general and symbol are sampled on windows, as the property states".into(), "a declared constant is read as the source symbol of the input files it stands for: a source symbol named like a 0-ary predicate of the problem (followed by any number of __s suffixes) is expected under its name with __s appended, any other under its own name".into()],
         },
         "C10" => PropertyRun {
             id: id.into(),
@@ -121,7 +121,7 @@ pub fn property(id: &str) -> Option<PropertyRun> {
         },
         "C20" => PropertyRun {
             id: id.into(),
-            parts: vec![Box::new(Campaign(c20::C20))],
+            parts: vec![Box::new(Campaign(c20::C20)), Box::new(Campaign(c20::Swap))],
             assumptions: vec!["directory order model: depth-first, entries of a directory in byte-wise file-name order, hidden files included (observed on the unchanged tree and what walkdir's sort_by_file_name documents)".into()],
         },
         _ => return None,
